@@ -177,8 +177,12 @@ fn gen(seed: u64, idx: u64, t: Tier) -> J {
 			cfg.max_depth = 2;
 			let (s, _) = gen::gen_stream(&mut r, Fmt::Yaml, 1, &cfg, true);
 			let text = String::from_utf8_lossy(&s.bytes).into_owned();
+			let big = r.chance(1, 3);
+			let text = if big { String::from_utf8_lossy(&gen::boundary_text(&mut r, Fmt::Yaml)).into_owned() } else { text };
 			let mut b = super::c02::encode_utf(&text, r.usize_below(4), r.chance(1, 2));
-			gen::mutate(&mut r, &mut b, &[0xd8, 0x00, 0xdc, 0x00, 0xff, 0xff]);
+			if !big || r.chance(1, 3) {
+				gen::mutate(&mut r, &mut b, &[0xd8, 0x00, 0xdc, 0x00, 0xff, 0xff]);
+			}
 			(b, Fmt::Yaml, "utf16_32")
 		} else {
 			let b: &[u8] = *r.pick(&[&b""[..], b"\xef\xbb\xbf", b"\xff\xfe", b"\xfe\xff", b"\xff\xfe\x00\x00", b"\x00\x00\xfe\xff", b"\n", b" ", b"\xef\xbb\xbf{}", b"---", b"...", b"\x00"]);
